@@ -1348,6 +1348,19 @@ impl<'a, 'b> Gen<'a, 'b> {
 
     // ---- literals
 
+    /// A slice bound with value `v`: a literal, or (1 in 3) a *computed* expression with the
+    /// same value — evaluators may take a different code path for non-literal bounds.
+    fn slice_bound(&mut self, v: i64) -> E {
+        if self.core() || !self.u.ratio(1, 3) {
+            return E::num(v);
+        }
+        match self.u.below(3) {
+            0 => E::raw(&format!("({}-3)", v + 3)),
+            1 => E::raw(&format!("([{}]|.[0])", v)),
+            _ => E::raw(&format!("({}|.)", v)),
+        }
+    }
+
     fn some_string(&mut self) -> String {
         if !self.doc_strings.is_empty() && self.u.ratio(2, 3) {
             let i = self.u.below(self.doc_strings.len());
@@ -1503,8 +1516,8 @@ impl<'a, 'b> Gen<'a, 'b> {
                             s = self.elem_sample(&s);
                         }
                         3 | 4 if self.ok("slice") => {
-                            let a = if self.u.bool() { Some(Box::new(E::num(self.u.range_i64(-len - 1, len + 1)))) } else { None };
-                            let b = if a.is_none() || self.u.bool() { Some(Box::new(E::num(self.u.range_i64(-len - 1, len + 1)))) } else { None };
+                            let a = if self.u.bool() { let v = self.u.range_i64(-len - 1, len + 1); Some(Box::new(self.slice_bound(v))) } else { None };
+                            let b = if a.is_none() || self.u.bool() { let v = self.u.range_i64(-len - 1, len + 1); Some(Box::new(self.slice_bound(v))) } else { None };
                             steps.push(Step::Slice(a, b));
                             // representative: keep the array
                         }
@@ -1532,8 +1545,10 @@ impl<'a, 'b> Gen<'a, 'b> {
                     }
                 }
                 K::Str if !self.core() && self.ok("slice") && self.u.ratio(1, 3) => {
-                    let a = self.u.range_i64(-3, 3);
-                    steps.push(Step::Slice(Some(Box::new(E::num(a))), if self.u.bool() { Some(Box::new(E::num(self.u.range_i64(-3, 6)))) } else { None }));
+                    let a = self.u.range_i64(-4, 4);
+                    let a = self.slice_bound(a);
+                    let b = if self.u.bool() { let v = self.u.range_i64(-4, 8); Some(Box::new(self.slice_bound(v))) } else { None };
+                    steps.push(Step::Slice(Some(Box::new(a)), b));
                 }
                 _ => break,
             }
